@@ -32,9 +32,11 @@ TRUSTED = [
     "payload modelled per cache line (fill byte), exact while no region handed to a writer overlaps "
     "unread data, which is what is proved; message lengths are uint32 (1 <= n < 2^32), n = 0 is "
     "indistinguishable from the wrap marker and outside the property",
-    "no-wedge clause is stated with the exact constant of the code: a drained ring accepts every "
-    "request of at most N/2-1 cache lines INCLUDING the 3-line overhead of CAL_BYTES_CACHELINE "
-    "(so at most 64*(N/2-3)-8 payload bytes; nothing for N = 4), as fixed in DESIGN.md C08",
+    "no-wedge clause: proved (no_wedge_partial) and enforced as VIOLATION with the exact constant of the code: a "
+    "drained ring accepts every request of at most N/2-1 cache lines INCLUDING the 3-line overhead of "
+    "CAL_BYTES_CACHELINE (at most 64*(N/2-3)-8 payload bytes; nothing for N = 4); the literal clause (up to half "
+    "the ring's bytes) is false for the code (no_wedge_literal_fails), probed on the real code and reported as "
+    "known finding C08-no-wedge-literal-half-ring",
 ]
 
 EXPECTED_SITES = {
@@ -428,6 +430,112 @@ def signature_of(run, out, msg):
 
 
 # ---------------------------------------------------------------------------------------
+# the LITERAL no-wedge clause ("a drained ring always accepts a message of up to half its size")
+# ---------------------------------------------------------------------------------------
+LITERAL_SIG = "C08-no-wedge-literal-half-ring"
+
+
+def gen_literal_probes():
+    """For N = 4..64 and every cursor position p a drained ring can be at (0 and 3..N-1), reached
+    directly and after one wrap (different cached_remain), a final request of at most half the ring's
+    bytes whose cache-line count, overhead included, is above N/2-1 (the bound the code guarantees and
+    the other generators test). Deterministic: the family is the same at every seed."""
+    runs = []
+    for N in (4, 8, 16, 32, 64):
+        half_bytes = 32 * N
+        probes = []
+        for k in range(max(3, N // 2), N // 2 + 4):
+            lo, hi = max(1, (k - 3) * 64 - 8 + 1), min((k - 2) * 64 - 8, half_bytes)
+            if lo <= hi:
+                probes += sorted({lo, hi})
+        for p in [0] + list(range(3, N)):
+            prefixes = [[] if p == 0 else ["a%d" % bytes_for(p), "f"]]
+            if 3 <= p <= N - 3 and N - 2 >= 3:
+                # go to N-2, drain, wrap to p (marker at N-2), drain across the marker
+                prefixes.append(["a%d" % bytes_for(N - 2), "f", "a%d" % bytes_for(p), "f", "f"])
+            for pre in prefixes:
+                for n in probes:
+                    r = seq_run(N, pre + ["a%d" % n], "seq-literal")
+                    r.update(probe_n=n, probe_pos=p)
+                    runs.append(r)
+    return runs
+
+
+def judge_literal(run, out):
+    """('skip' | 'accepted' | 'refused', cursor position) for the final request of a literal probe."""
+    n = run["probe_n"]
+    committed = consumed = 0
+    W = R = 0
+    last_begin = None
+    res = None
+    for l in out:
+        m = re.match(r"T\d+ st write_cursor (-?\d+) ", l)
+        if m:
+            W = int(m.group(1))
+        m = re.match(r"T\d+ st read_cursor (-?\d+) ", l)
+        if m:
+            R = int(m.group(1))
+        m = RE_NOTE.match(l)
+        if not m:
+            continue
+        w = m.group(2).split()
+        if w[0] == "commit":
+            committed += 1
+        elif w[0] == "consumed":
+            consumed += 1
+        elif w[0] == "alloc-begin":
+            last_begin = (w[1] == "n=%d" % n, committed == consumed, W, R)
+            res = None
+        elif w[0] == "alloc-fail" and last_begin:
+            res = "refused"
+        elif w[0] == "alloc" and last_begin:
+            res = "accepted"
+    if not last_begin or not last_begin[0] or not last_begin[1] or last_begin[2] != last_begin[3] or res is None:
+        return "skip", None      # the history did not bring the ring to a drained position (other code)
+    return res, last_begin[2]
+
+
+def literal_probes(ctx, hcmd, dcmd):
+    runs = gen_literal_probes()
+    # model == implementation and the ordinary oracle (which only knows the N/2-1 bound) on the same runs
+    vlib.conc_correspondence(ctx, hcmd, dcmd, runs, judge=judge, label="tieB_literal_no_wedge_probes")
+    outs = vlib.run_cases(hcmd, [r["conf"] + ["sched " + r["sched"], "run"] for r in runs])
+    stats = {}
+    first = None
+    for r, o in zip(runs, outs):
+        verdict, pos = judge_literal(r, o["out"])
+        st = stats.setdefault(str(r["N"]), {"probes": 0, "refused": 0, "skipped": 0, "refused_positions": set()})
+        if verdict == "skip":
+            st["skipped"] += 1
+            continue
+        st["probes"] += 1
+        if verdict == "refused":
+            st["refused"] += 1
+            st["refused_positions"].add(pos)
+            if first is None:
+                first = (r, o["out"], pos)
+    for st in stats.values():
+        st["refused_positions"] = sorted(st["refused_positions"])
+    ctx.cov["literal_no_wedge_probes"] = {
+        "what": "drained ring at every cursor position, request <= half the ring's bytes with more than N/2-1 cache "
+                "lines (overhead included): the property's literal clause 3",
+        "probes": sum(v["probes"] for v in stats.values()), "refused": sum(v["refused"] for v in stats.values()),
+        "per_ring_size": stats}
+    if first is not None:
+        r, out, pos = first
+        ncl = ncl_of(r["probe_n"])
+        ctx.violation({"kind": "property-fails-on-implementation", "tie": "literal_no_wedge_probes",
+                       "what": "drained ring of %d cache lines (both cursors at %d) refused a message of %d bytes "
+                               "(%d cache lines with overhead), which is at most half the ring (%d bytes)"
+                               % (r["N"], pos, r["probe_n"], ncl, 32 * r["N"]),
+                       "conf": r["conf"], "ops": r["conf"] + ["sched " + r["sched"], "run"],
+                       "implementation_trace": out[-40:],
+                       "refused_of_probes": "%d of %d" % (ctx.cov["literal_no_wedge_probes"]["refused"],
+                                                           ctx.cov["literal_no_wedge_probes"]["probes"])},
+                      found_input=True, signature=LITERAL_SIG)
+
+
+# ---------------------------------------------------------------------------------------
 
 SYSTEMATIC = [
     # (N, lock, thread programs, preemption bound quick, thorough)
@@ -477,6 +585,7 @@ def main(ctx):
     ctx.cov["sequential_marker_slots_visited"] = {
         str(n): sorted({p[2] for p in v if p[2] is not None}) for n, v in sorted(visited.items())}
     vlib.conc_correspondence(ctx, hcmd, dcmd, gen_malformed(ctx), judge=judge, label="tieB_malformed")
+    literal_probes(ctx, hcmd, dcmd)
     vlib.conc_correspondence(ctx, hcmd, dcmd, gen_concurrent(ctx), judge=judge, label="tieC_random")
     vlib.conc_correspondence(ctx, hcmd, dcmd, gen_crash(ctx, hcmd), judge=judge, label="tieC_writer_crash")
     sys_runs, exh = [], {}
